@@ -82,7 +82,8 @@ def nametable(entries):
 # outlier detection (threshold, volume): every kind of single-field change between two picks is likely
 # (threshold only, volume only, to/from zero, to/from absent)
 OUTLIERS = [None, None, (10, 5), (30, 5), (10, 100), (30, 100), (100, 100), (0, 5), (50, 0), (0, 0),
-            (2, 2147483648), (4, 1073741824), (64, 67108864), (100, 4294967295)]   # products that wrap in 32 bits
+            (2, 2147483648), (4, 1073741824), (64, 67108864), (100, 4294967295),   # products that wrap in 32 bits
+            (10, 101), (10, 250), (50, 1000)]                                       # volumes above 100
 
 
 class SysGen:
